@@ -129,7 +129,7 @@ func c18Run(c fw.Case) fw.Verdict {
 	e := NewEnv()
 	defer e.Close()
 	v := fw.Verdict{}
-	rng := rand.New(rand.NewSource(c.Seed))
+	_ = rand.Int63 // PRNGs are created per goroutine below
 	action, moment, nd, typ := c.Str("action", "close-store"), c.Str("moment", "idle"), c.Int("ndbs", 1), c.Str("type", tKV)
 	wd := 15 * time.Second
 	if raceBuild() {
